@@ -1,6 +1,7 @@
 //! vh - conformance harness binding the TLA+ specifications under /verif/specs to the real library.
 #![allow(dead_code)]
 mod util;
+mod c03;
 mod c04;
 mod c07;
 mod c09;
@@ -24,6 +25,7 @@ fn main() {
     }
     let args = util::Args::parse(&argv[1..]);
     match argv[0].as_str() {
+        "c03" => c03::main(&args),
         "c04" => c04::main(&args),
         "c07" => c07::main(&args),
         "c09" => c09::main(&args),
